@@ -36,6 +36,17 @@ def config(label, name='a'):
             'opts': dict(c['opts'])}
 
 
+ODD_NAMES = ['%s[12]', '%s [v2]', '%s*', '%s?x', '%s.d', '\u00e4%s', '%s{a,b}']
+
+
+def odd_name(rng, label, base, p=0.08):
+    """archive names a user may well choose (brackets, spaces, glob characters, dots, non-ASCII);
+    source-text archives are imported by name and sqlite tables are SQL identifiers: those stay plain"""
+    if label in ('file-src', 'dir-src', 'dict', 'null') or label.startswith('sql') or not rng.chance(p):
+        return base
+    return rng.choice(ODD_NAMES) % base
+
+
 def location(cfg, root):
     kind, name, opts = cfg['kind'], cfg['name'], cfg['opts']
     if kind == 'file':
